@@ -48,6 +48,15 @@ ASSUMPTIONS = [
 
 
 def gen_case(tape, tier):
+    if tape.coin(0.0015 if tier == "quick" else 0.0004, "big-output"):
+        # one mapped output with thousands of elements: more than any batch size somebody might read them in
+        n = tape.pick([4100, 4160, 8200], "big-n")
+        w = {"indices": {"i": n}, "inputs": {"x0": {"axes": ["i"], "kind": "ndarray", "base": 100}},
+             "functions": [{"name": "f0", "params": ["x0"], "mapspec": "x0[i] -> o0[i]", "out_shape": None, "defaults": {}, "bound": {},
+                            "sig_defaults": {}, "outputs": ["o0"]}], "internal_via": "pipefunc"}
+        return {"workload": w, "config": {"storage": "file_array", "executor": {"kind": "sequential"}, "preempt": 0.1, "pre": "none",
+                                          "pre_same_process": False, "big": True},
+                "ops": [{"op": "outputs", "names": ["o0"], "mutate": False}, {"op": "exit"}, {"op": "outputs", "names": ["o0"], "mutate": False}]}
     w = gen_workload(tape)
     storage = C.gen_storage(tape, w)
     ex = tape.pick(["sequential", "sequential", "single"], "exec")
@@ -382,7 +391,7 @@ def _run_case(case, exec_seed=None, exec_tape=None):
                         return
 
         def new_process():
-            sim = C.new_sim(tape, root, preempt=cfg["preempt"])
+            sim = C.new_sim(tape, root, preempt=cfg["preempt"], step_cap=2_000_000 if cfg.get("big") else 20000)
             state["sim"] = sim
             state["nproc"] += 1
             return sim
